@@ -70,8 +70,8 @@ def ensure_build(variant):
 
 
 VARIANT_FLAGS = {
-    "plain": ("g++", ["-O2", "-g", "-DBXDECAY0_VERIF"]),
-    "asan": ("clang++-14", ["-O1", "-g", "-fno-omit-frame-pointer", "-DBXDECAY0_VERIF",
+    "plain": ("g++", ["-O2", "-g", "-DBXDECAY0_VERIF", "-ftrivial-auto-var-init=pattern"]),
+    "asan": ("clang++-14", ["-O1", "-g", "-fno-omit-frame-pointer", "-DBXDECAY0_VERIF", "-ftrivial-auto-var-init=pattern",
                             "-fsanitize=address,undefined", "-fno-sanitize-recover=undefined"]),
     "tsan": ("clang++-14", ["-O1", "-g", "-DBXDECAY0_VERIF", "-fsanitize=thread"]),
     "nohook": ("g++", ["-O2"]),
